@@ -35,10 +35,10 @@ class SplitMux(Spawner):
     def inv(self, c, slots, hist):
         (m, v), = slots
         n = Length(hist)
-        # the slot holds the predicate value of the previous item of this lifetime, or a value == to it (the first of the run).
-        # == is not reflexive on NaN, hence the first disjunct.
+        # the slot holds the predicate value of the PREVIOUS ITEM of this lifetime (the property compares each item with the previous one;
+        # == need be neither reflexive -- NaN -- nor transitive -- OrderedDict / dict / OrderedDict -- so "a value equal to it" is too weak)
         last = ufn('predicate')(hist[n - 1])
-        return And((m == M_NOTSET) == (n == 0), Implies(m == M_SET, Or(v == last, py_eq(v, last))))
+        return And((m == M_NOTSET) == (n == 0), Implies(m == M_SET, v == last))
 
     def may_raise(self, c, q):
         return BoolVal(isinstance(q.exc, ExcV) and q.exc.origin == 'predicate')
@@ -110,12 +110,14 @@ class TimeSplitMux(Spawner):
         first = ms == M_NOTSET
         start = If(first, t, V.r(vs)); last = If(first, t, V.r(vl))
         expired = Or(And(BoolVal(P['A']), t >= start + P['a']), And(BoolVal(P['I']), t >= last + P['ia']))
-        closing = And(BoolVal(P['C']), ufn('closing_mapper')(c.x) == V.VBool(BoolVal(True)))
+        closing = And(BoolVal(P['C']), truthy(ufn('closing_mapper')(c.x)))     # "closing_mapper accepts it": any truthy result
         ik = inner(c.k)
         cr, nx, cp = Unit(em(OUT, Ev.Create(ik))), Unit(em(OUT, Ev.Next(ik, c.x))), Unit(em(OUT, Ev.Completed(ik)))
         pre = If(first, Concat(c.trace0, cr), c.trace0)
+        # a closing item that belongs to the next window closes the current window -- unless it is the first item of the key: the window
+        # just opened for it is not closed empty
         spec = If(expired, Concat(pre, cp, cr, nx),
-                  If(closing, If(P['inc'], Concat(pre, nx, cp, cr), Concat(pre, cp, cr, nx)),
+                  If(closing, If(P['inc'], Concat(pre, nx, cp, cr), If(first, Concat(pre, nx), Concat(pre, cp, cr, nx))),
                      Concat(pre, nx)))
         restart = Or(first, expired, closing)
         (ms1, vs1), (ml1, vl1) = c.slot(q, s_start), c.slot(q, s_last)
